@@ -27,6 +27,7 @@ import onnx
 
 from harness import serde_common as sc
 from harness import serde_meta as sm
+from harness import scope_bridge as sb
 from harness.common import Ctx, Part, lean_batch, load_corpus, pmap
 
 THEOREMS = [
@@ -46,8 +47,29 @@ THEOREMS = [
     "IrVerif.Scope.C03_roundtrip_ext_model",
     "IrVerif.Scope.C03_roundtrip_ext",
     "IrVerif.Scope.C03_ext_certificate_decidable",
+    "IrVerif.Scope.C03_bridge_deserialize_partial",
+    "IrVerif.Scope.C03_bridge_serialize_partial",
+    "IrVerif.Scope.C03_bridge_roundtrip_partial",
+    "IrVerif.Scope.C03_bridge_gok",
+    "IrVerif.Scope.C03_bridge_serde_partial",
+    "IrVerif.Scope.C03_bridge_deserialize",
+    "IrVerif.Scope.C03_bridge_serialize",
+    "IrVerif.Scope.C03_bridge_roundtrip",
+    "IrVerif.Scope.C03_bridge_gok_full",
+    "IrVerif.Scope.C03_bridge_serde",
 ]
 ASSUMPTIONS = [
+    "C02 bridge (Model/ScopeSerdeBridge*.lean, Lemmas/ScopeSerdeBridge*.lean, op bridge.graph): C03_bridge_* identify the Scope "
+    "model with C02's field-level model of serde.py on the decidable fragment sharedFull = C02's wfGraph (nested graphs "
+    "included; sharedSFull for serialization: also no value-level metadata_props and initializer tensors in canonical form, "
+    "in every nested graph): absIRFull (C02's deserialized IR) is the world the Scope model deserializes from absGFull (proto), "
+    "minus the derived links, and the Scope model serializes it to absGFull of C02's normal form normGraph. The _partial "
+    "theorems are the same for graphs without nested graphs (older, kept). On every case the main graph written by to_proto is "
+    "rendered in C02's proto JSON; the driver evaluates the fragments (counters hyp_bridge_shared / hyp_bridge_sharedS), GOKFull "
+    "and the conclusions (bridge_des_agree / bridge_ser_agree / bridge_norm_agree, also outside the fragments); absGFull is "
+    "compared with this harness's own abstraction of the same proto up to a bijection of the opaque tokens "
+    "(bridge_abstractions_agree), and C02's model of to_proto(from_proto(p)) with the real one (bridge_c02_model_vs_real): the "
+    "C02 model runs on the C03 generator. Functions and models are in the bridge only if C03_bridge_*_model are listed in THEOREMS",
     "value-info content and tensor payloads are opaque tokens in the model; non-graph node attributes are compared by "
     "the oracle only; functions are part of the core model (C03_roundtrip_model, scope.mser) for IR version >= 10",
     "decoration layer (Model/ScopeMeta.lean, scope.dser): metadata_props of model / graph / node / function, opset "
@@ -746,6 +768,21 @@ def run_case(part, gen_seed: int, p_odd: float, lean_reqs: list, pending: list) 
     if world0 is not None:
         lean_reqs.append({"m": "scope.ser", "w": world0})
         pending.append((case, flags, world0, model, p1, err, m2))
+    if p1 is not None:
+        # ---- C02 bridge (Model/ScopeSerdeBridge.lean): the written main graph in C02's proto JSON
+        breq = sb.bridge_request(p1.graph, int(model.ir_version))
+        if breq is None:
+            part.count("bridge_outside_c02_encoding")
+        else:
+            p3 = None
+            if m2 is not None and (model.ir_version >= 10 or not len(model.functions)):
+                # to_proto(from_proto(p1)): what C02's model (serGraph . desGraph) is compared with on this generator
+                try:
+                    p3 = serde.serialize_model(m2)
+                except Exception:  # noqa: BLE001 - a raise is reported by the C17-side fix-point oracle
+                    part.count("bridge_reserialization_raised")
+            lean_reqs.append(breq)
+            pending.append(("B", case, p1, p3))
     if worldM is not None:
         part.count("model_with_functions")
         lean_reqs.append({"m": "scope.mser", "w": worldM})
@@ -1170,6 +1207,8 @@ def _flush(part, reqs: list, pending: list) -> None:
             diff_deco(part, out, *p[1:])
         elif p[0] == "E":
             diff_ext(part, out, *p[1:])
+        elif p[0] == "B":
+            sb.diff_bridge(part, out, *p[1:])
         else:
             diff_case(part, out, *p)
     reqs.clear()
@@ -1230,6 +1269,8 @@ def replay(ctx: Ctx, obj: dict) -> None:
             diff_deco(part, out, *p[1:])
         elif p[0] == "E":
             diff_ext(part, out, *p[1:])
+        elif p[0] == "B":
+            sb.diff_bridge(part, out, *p[1:])
         else:
             diff_case(part, out, *p)
     ctx.merge(part)
